@@ -135,7 +135,7 @@ def _ident_list(names):
     return list(names)
 
 
-def ekf_driver_source(defn, *, with_ekf=True, header="gen.h", ns="gen"):
+def ekf_driver_source(defn, *, with_ekf=True, header="gen.h", ns="gen", managed=False):
     """C++ driver for a generated EKF (or Model): every input is set through a
     named Options field and every output is read through the named accessor;
     matrix rows/columns are located through the layout the accessors reveal.
@@ -158,6 +158,9 @@ def ekf_driver_source(defn, *, with_ekf=True, header="gen.h", ns="gen"):
     L = []
     A = L.append
     A(f"#include <{header}>")
+    if managed:
+        A("#include <formak/runtime/ManagedFilter.h>")
+        A("#include <memory>")
     A("#include <cstdio>\n#include <cstdlib>\n#include <cstring>\n#include <string>\n#include <vector>")
     A(f"using namespace {ns};")
     A("static double rd() { char b[256]; if (scanf(\"%255s\", b) != 1) { printf(\"EOF-IN-COMMAND\\n\"); exit(3);} return strtod(b, nullptr); }")
@@ -228,6 +231,9 @@ def ekf_driver_source(defn, *, with_ekf=True, header="gen.h", ns="gen"):
                   f" if (hit < 0 || q.{r}() != 7.5) fail(\"{T}.{r}\"); RL{si}[{j}] = hit; }}")
             A(f"  if ({T}::size != {m}) fail(\"{T}::size\");")
             A("}")
+    if managed and with_ekf:
+        for line in _managed_globals(defn, st, ct, cal, sens, cal_arg):
+            A(line)
     # --- main loop
     A("int main() {")
     A("  discover();")
@@ -286,6 +292,9 @@ def ekf_driver_source(defn, *, with_ekf=True, header="gen.h", ns="gen"):
         A("    if (c == \"M\") { double dt = rd(); double x[N > 0 ? N : 1]; for (int i = 0; i < N; ++i) x[i] = rd(); State st = mk_state(x); " + ctrl_read)
         A(f"      State f = Model().model(dt, st{cal_arg}{ctrl_arg});")
         A("      printf(\"M\"); pr_state(f); printf(\"\\n\"); continue; }")
+    if managed and with_ekf:
+        for line in _managed_commands(defn, st, ct, cal, sens, cal_arg, ctrl_read, ctrl_arg):
+            A(line)
     A("    printf(\"BAD-COMMAND %s\\n\", cmd); exit(6);")
     A("  }")
     A("  printf(\"DONE\\n\");")
@@ -294,10 +303,82 @@ def ekf_driver_source(defn, *, with_ekf=True, header="gen.h", ns="gen"):
     return "\n".join(L) + "\n"
 
 
+def _managed_globals(defn, st, ct, cal, sens, cal_arg):
+    """Recording adapter around the generated filter + logging reading wrapper."""
+    C, Kn = len(ct), len(cal)
+    cal_p = ", const Calibration& calibration" if Kn else ""
+    ctl_p = ", const Control& control" if C else ""
+    cal_a = ", calibration" if Kn else ""
+    ctl_a = ", control" if C else ""
+    L = []
+    L.append("struct LogEv { bool mark; double dt; };")
+    L.append("static std::vector<LogEv> LOG;")
+    L.append("struct Rec : ExtendedKalmanFilter {")
+    L.append(f"  StateAndVariance process_model(double dt, const StateAndVariance& state{cal_p}{ctl_p}) const {{")
+    L.append(f"    LOG.push_back(LogEv{{false, dt}}); return ExtendedKalmanFilter::process_model(dt, state{cal_a}{ctl_a}); }}")
+    L.append("};")
+    L.append("template <typename T> struct LogReading : T {")
+    L.append("  LogReading(const T& t) : T(t) {}")
+    L.append(f"  StateAndVariance sensor_model(const ExtendedKalmanFilter& impl, const StateAndVariance& state{cal_p}) const override {{")
+    L.append(f"    LOG.push_back(LogEv{{true, 0.0}}); return T::sensor_model(impl, state{cal_a}); }}")
+    L.append("};")
+    L.append("static_assert(formak::runtime::ManagedFilter<ExtendedKalmanFilter>::compatible, \"generated filter is not runtime compatible\");")
+    L.append("static_assert(formak::runtime::ManagedFilter<Rec>::compatible, \"recording adapter is not runtime compatible\");")
+    L.append("using MFR = formak::runtime::ManagedFilter<Rec>;")
+    L.append("using MFP = formak::runtime::ManagedFilter<ExtendedKalmanFilter>;")
+    L.append("static std::unique_ptr<MFR> mf_rec; static std::unique_ptr<MFP> mf_plain;")
+    L.append("static StateAndVariance HELD;")
+    L.append("static bool same_sv(const StateAndVariance& a, const StateAndVariance& b) { return a.state.data == b.state.data && a.covariance.data == b.covariance.data; }")
+    return L
+
+
+def _managed_commands(defn, st, ct, cal, sens, cal_arg, ctrl_read, ctrl_arg):
+    C, Kn = len(ct), len(cal)
+    L = []
+    A = L.append
+    A("    if (c == \"MFI\") { double t0 = rd(); StateAndVariance sv = rd_sv(); HELD = sv;")
+    if Kn:
+        A("      mf_rec.reset(new MFR(t0, sv, CALV)); mf_plain.reset(new MFP(t0, sv, CALV));")
+    else:
+        A("      mf_rec.reset(new MFR(t0, sv)); mf_plain.reset(new MFP(t0, sv));")
+    A("      printf(\"MFI ok\\n\"); continue; }")
+    A("    if (c == \"MT\") { double out = rd(); " + ctrl_read + " int n = int(rd());")
+    A("      std::vector<MFR::StampedReading> rr; std::vector<MFP::StampedReading> rp; std::vector<int> sidx; std::vector<std::vector<double>> zs;")
+    A("      for (int i = 0; i < n; ++i) { double ts = rd(); int s = int(rd()); sidx.push_back(s); std::vector<double> z;")
+    for si, sn in enumerate(sens):
+        T = sn.title()
+        m = len(defn["sensors"][sn])
+        A(f"        if (s == {si}) {{ for (int j = 0; j < {m}; ++j) z.push_back(rd()); {T} q = mk_reading{si}(z.data());"
+          f" rr.push_back(MFR::wrap(ts, LogReading<{T}>(q))); rp.push_back(MFP::wrap(ts, q)); }}")
+    A("        zs.push_back(z); }")
+    A("      LOG.clear();")
+    tick_ctl = "ctrl, " if C else ""
+    tick_ctl_only = ", ctrl" if C else ""
+    A(f"      StateAndVariance r1 = (n < 0) ? mf_rec->tick(out{tick_ctl_only}) : mf_rec->tick(out, {tick_ctl}rr);")
+    A("      std::vector<LogEv> log = LOG;")
+    A(f"      StateAndVariance r2 = (n < 0) ? mf_plain->tick(out{tick_ctl_only}) : mf_plain->tick(out, {tick_ctl}rp);")
+    A("      // replay the recorded schedule by hand on a plain generated filter")
+    A("      ExtendedKalmanFilter hand; StateAndVariance cur = HELD; StateAndVariance held_new = HELD; size_t li = 0; int bad = 0;")
+    A("      for (int i = 0; i < (n < 0 ? 0 : n); ++i) {")
+    A(f"        while (li < log.size() && !log[li].mark) {{ cur = hand.process_model(log[li].dt, cur{cal_arg}{ctrl_arg}); ++li; }}")
+    A("        if (li >= log.size()) { bad = 1; break; } ++li;")
+    for si, sn in enumerate(sens):
+        T = sn.title()
+        A(f"        if (sidx[i] == {si}) {{ {T} q = mk_reading{si}(zs[i].data()); cur = hand.sensor_model(cur{cal_arg}, q); }}")
+    A("        held_new = cur; }")
+    A(f"      while (li < log.size()) {{ if (log[li].mark) {{ bad = 1; break; }} cur = hand.process_model(log[li].dt, cur{cal_arg}{ctrl_arg}); ++li; }}")
+    A("      if (n > 0) HELD = held_new;")
+    A("      printf(\"MT %d %d %d %zu\", same_sv(r1, r2) ? 1 : 0, same_sv(r1, cur) ? 1 : 0, bad, log.size());")
+    A("      for (const LogEv& e : log) { if (e.mark) printf(\" M\"); else printf(\" %a\", e.dt); }")
+    A("      printf(\" |\"); pr_state(r1.state); pr_cov(r1.covariance); printf(\"\\n\"); continue; }")
+    return L
+
+
 class EkfBinary:
     """Generated EKF (or Model) + driver, compiled; talk to it in batches."""
 
-    def __init__(self, defn, built, config, *, with_ekf=True, compiler="g++", sanitize=True, opt="-O1"):
+    def __init__(self, defn, built, config, *, with_ekf=True, compiler="g++", sanitize=True, opt="-O1",
+                 managed=False):
         self.defn = defn
         self.with_ekf = with_ekf
         self.scratch = Scratch()
@@ -313,7 +394,7 @@ class EkfBinary:
             self.header, self.source, self.generator = generate_model(built, config)
         self.scratch.write("generated/gen.h", self.header)
         self.scratch.write("gen.cpp", self.source)
-        self.scratch.write("drv.cpp", ekf_driver_source(defn, with_ekf=with_ekf))
+        self.scratch.write("drv.cpp", ekf_driver_source(defn, with_ekf=with_ekf, managed=managed))
         self.ok, self.compile_err = compile_cpp(self.scratch, ["gen.cpp", "drv.cpp"], compiler=compiler,
                                                 sanitize=sanitize, opt=opt)
         self.lines = []
@@ -344,6 +425,30 @@ class EkfBinary:
     def s_cmd(self, sname, x):
         si = self.sensors.index(sname)
         return f"S {si} {self._vec(x, self.state)}"
+
+    def mfi_cmd(self, t0, x, P):
+        flat = " ".join(hexf(v) for row in P for v in row)
+        return f"MFI {hexf(t0)} {self._vec(x, self.state)} {flat}"
+
+    def mt_cmd(self, out, u, readings):
+        """readings: None (overload without readings) or [(ts, sensor name, z dict)]"""
+        head = f"MT {hexf(out)} {self._vec(u, self.control)}"
+        if readings is None:
+            return head + " -1"
+        parts = [head, str(len(readings))]
+        for ts, sn, z in readings:
+            parts.append(f"{hexf(ts)} {self.sensors.index(sn)} {self._vec(z, self.readings[sn])}")
+        return " ".join(parts)
+
+    def parse_mt(self, toks):
+        eq12, eq13, bad, n = int(toks[1]), int(toks[2]), int(toks[3]), int(toks[4])
+        log = [None if t == "M" else unhex(t) for t in toks[5:5 + n]]
+        rest = toks[5 + n + 1:]
+        k = len(self.state)
+        v = [unhex(t) for t in rest]
+        x = dict(zip(self.state, v[:k]))
+        P = [v[k + i * k: k + (i + 1) * k] for i in range(k)]
+        return eq12, eq13, bad, log, x, P
 
     def run(self, commands, timeout=120, valgrind=False):
         res = run_bin(self.scratch, stdin_text="\n".join(commands) + "\n", timeout=timeout,
